@@ -177,7 +177,7 @@ func readBack(obs *Obs, c *Case, files []FileSpec, pdir string) {
 		if af != nil {
 			for _, d := range af.Decls {
 				fd, ok := d.(*ast.FuncDecl)
-				if !ok || !regexp.MustCompile(`^f\d+$`).MatchString(fd.Name.Name) {
+				if !ok || !regexp.MustCompile(`^Wrap\d+$`).MatchString(fd.Name.Name) {
 					continue
 				}
 				ast.Inspect(fd.Body, func(n ast.Node) bool {
